@@ -195,3 +195,12 @@ package builder
 //@ func (*uploadOutputsState).uploadOutputDirectoryEntered
 //@   props C10
 //@   at call uploadDirectory#1 assert every-tree-starts-empty: len(dState.directories) == 0 && len(dState.directoriesSeen) == 0
+
+// The deadline until which the scheduler may believe this worker is executing
+// counts from the time the scheduler expects the next synchronization, not
+// from the local clock: one minute past that the scheduler has purged the
+// worker (C08).
+//@ func (*BuildClient).touchSchedulerMayThinkExecuting
+//@   props C08
+//@   ensures one-minute-past-the-expected-synchronization:
+//@             bc.schedulerMayThinkExecutingUntil != nil && *bc.schedulerMayThinkExecutingUntil == bc.nextSynchronizationAt + 60000000000
